@@ -300,13 +300,15 @@ impl<'a> JsonGen<'a> {
                 json!(c.pick(&[0i64, 3, -1, I32_MAX + 1]))
             }
             7 => {
-                self.label("float-int-2^53-2");
-                json!(c.pick(&[TWO_53 - 2, -(TWO_53 - 2)]))
+                // around the documented bound ("up to the value 2^53 - 1"); the bound itself is rare
+                // because apollo rejects it (known finding) and the case is then lost for the rest
+                let v = c.pick(&[TWO_53 - 2, -(TWO_53 - 2), TWO_53 - 3, -(TWO_53 - 2), TWO_53 - 2, TWO_53 - 1, -(TWO_53 - 1)]);
+                self.label(if v.abs() == TWO_53 - 1 { "float-int-2^53-1" } else { "float-int-2^53-2" });
+                json!(v)
             }
             8 => {
-                // the documented bound itself ("up to the value 2^53 - 1")
-                self.label("float-int-2^53-1");
-                json!(c.pick(&[TWO_53 - 1, -(TWO_53 - 1)]))
+                self.label("float-from-int");
+                json!(c.pick(&[I32_MAX, I32_MIN, I32_MIN - 1, 1 << 40, -(1 << 52)]))
             }
             9 => {
                 self.label("float-from-int");
